@@ -185,6 +185,20 @@ def _ob_dims(n_extra: int, j: int, a: int, b: int) -> bool:
                         want.append(E.UnsortedTicks.format(idx))
                 if unit and not _atomic(unit):
                     want.append(E.InvalidDimensionUnit.format(idx))
+    if kind == "set":
+        # the array under test is also REFERENCED: a tag and a multi-tag whose position / extent have one entry
+        # per DATA dimension and one (empty) unit per descriptor are consistent whatever the descriptors are,
+        # so nothing may be attributed to them
+        tg = blk.create_tag("on-arr", "t", [0.0] * rank)
+        tg.extent = [1.0] * rank
+        tg._h5group.write_data("units", [""] * n, nixio_dt_string())
+        tg.references.append(arr)
+        pos = blk.create_data_array("on-arr-pos", "t", data=np.zeros((2, rank)))
+        pos.append_set_dimension()
+        pos.append_set_dimension()
+        mt = blk.create_multi_tag("on-arr-mt", "t", positions=pos)
+        mt._h5group.write_data("units", [""] * n, nixio_dt_string())
+        mt.references.append(arr)
     got = _errors(f)
     return _same_report(got, {arr.id: want})
 
